@@ -318,12 +318,12 @@ def run_one(args):
     kind, prop, only = args
     ov, total = build_overrides(kind, only)
     mod = importlib.import_module(f"hgsa.rules.{prop.lower()}")
-    base = Report(prop, "quick")
     try:
-        mod.run(Repo(), base, "quick")
+        from hgsa.selfval import base_keys
+        from hgsa.loader import REPO_ROOT
+        basekeys = base_keys(prop, REPO_ROOT)
     except AnalysisError as e:
         return kind, prop, total, "BASE-ERROR", [str(e)]
-    basekeys = {f.key for f in base.findings}
     rep = Report(prop, "quick")
     try:
         mod.run(Repo(overrides=ov), rep, "quick")
